@@ -98,7 +98,8 @@ func isLocalIP(ip net.IP) (ok bool) {
 }
 
 // usableAddr converts an RR address to its canonical netip value and applies
-// the shared NS-address filters (local interface addresses, loopback). The
+// the shared NS-address filters (local interface addresses, loopback, the
+// unspecified address). The
 // bool is false when the address is malformed or filtered.
 func usableAddr(ip net.IP) (netip.Addr, bool) {
 	addr, ok := netip.AddrFromSlice(ip)
@@ -106,7 +107,9 @@ func usableAddr(ip net.IP) (netip.Addr, bool) {
 		return netip.Addr{}, false
 	}
 	addr = addr.Unmap()
-	if addr.IsLoopback() || isLocalIP(ip) {
+	// The unspecified address (0.0.0.0, ::) is not a destination: a datagram
+	// sent to it is delivered to the local host, exactly like loopback.
+	if addr.IsLoopback() || addr.IsUnspecified() || isLocalIP(ip) {
 		return netip.Addr{}, false
 	}
 	return addr, true
